@@ -40,6 +40,7 @@ FAULT_SITES = {
     "frag_job": ["timeout", "exception"],
     "fmcs": ["cancel", "raise"],
     "fmces": ["empty", "raise"],
+    "par_task": ["raise"],  # a worker task of the k-th Parallel call fails (explicit faults only)
 }
 
 
